@@ -756,7 +756,54 @@ func (ex *Exec) finishCall(st *State, pc *preparedCall, k func(*State, []Val)) {
 		k(st, ex.callbackApp(*pc.funVal, id.Name, pc.sig, pc.args))
 		return
 	}
+	if id, ok := unparen(call.Fun).(*ast.Ident); ok && pc.funVal != nil && ex.fc != nil && len(ex.fc.Dispatch[id.Name]) > 0 {
+		ex.dispatchCall(st, pc, id.Name, k)
+		return
+	}
 	ex.unknownCall(st, pc, "func value "+nodeString(ex.fset, call.Fun), k)
+}
+
+// dispatchCall: `dispatch VAR over f1, f2, ...`. One branch per candidate assumes VAR == fi and calls
+// fi (through its contract, inlined, or as an unknown call, as for a direct call); that VAR is one of
+// them is the obligation #dispatch[VAR].
+func (ex *Exec) dispatchCall(st *State, pc *preparedCall, name string, k func(*State, []Val)) {
+	var refs []string
+	var fns []*types.Func
+	for _, cn := range ex.fc.Dispatch[name] {
+		fn, _ := ex.pkg.Types.Scope().Lookup(cn).(*types.Func)
+		if fn == nil {
+			ex.fail(pc.call.Pos(), "dispatch %s: no function %s in package %s", name, cn, ex.pkg.Types.Name())
+			continue
+		}
+		if !types.Identical(fn.Type(), pc.sig) {
+			ex.fail(pc.call.Pos(), "dispatch %s: %s has a different signature", name, cn)
+			continue
+		}
+		fns = append(fns, fn)
+		refs = append(refs, ex.funcRef(fn).T)
+	}
+	if len(refs) > 1 {
+		ex.declare("(assert (distinct " + strings.Join(refs, " ") + "))")
+	}
+	ex.intrinsics["distinct named functions have distinct function values (dispatch)"] = true
+	for i, fn := range fns {
+		stI := st.clone()
+		stI.assume(eq(pc.funVal.T, refs[i]))
+		if stI.dead {
+			continue
+		}
+		ex.paths++
+		pcI := *pc
+		pcI.fn, pcI.funVal, pcI.callee = fn, nil, fn
+		ex.finishCall(stI, &pcI, k)
+	}
+	// the variable must be one of the candidates: an obligation of its own (the loop-effect analysis
+	// relies on it), so there is no "none of them" branch
+	var one []string
+	for _, r := range refs {
+		one = append(one, eq(pc.funVal.T, r))
+	}
+	ex.queries = append(ex.queries, &Query{Name: fmt.Sprintf("%s#dispatch[%s]", ex.name, name), Path: ex.paths, Assumes: append([]string(nil), st.pc...), Goal: or(one...), Pos: ex.posStr(pc.call.Pos()), Property: ex.props})
 }
 
 func (ex *Exec) resultVals(st *State, sig *types.Signature, hint string) []Val {
